@@ -163,7 +163,7 @@ def e_container_props(doc, rnd):
 
 
 def e_null_admitting(doc, rnd):
-    doc["structures"].append({"name": "VerifNullable", "properties": [prop("required", orn(S)), prop("maybe", orn(ref("Range")), True), prop("n", orn(I)), prop("items", orn(arr(ref("Position")))), {**prop("explicitlyRequired", orn(S)), "optional": False}, {**prop("explicitlyRequiredPlain", U), "optional": False}]})
+    doc["structures"].append({"name": "VerifNullable", "properties": [prop("required", orn(S)), prop("maybe", orn(ref("Range")), True), prop("n", orn(I)), prop("items", orn(arr(ref("Position")))), {**prop("explicitlyRequired", orn(S)), "optional": False}, prop("nullFirst", {"kind": "or", "items": [{"kind": "base", "name": "null"}, S]}), prop("nullInTheMiddle", {"kind": "or", "items": [I, {"kind": "base", "name": "null"}, S]}), prop("nullFirstOptional", {"kind": "or", "items": [{"kind": "base", "name": "null"}, ref("Range")]}, True), prop("emptyLiteral", {"kind": "stringLiteral", "value": ""}), prop("emptyLiteralOptional", {"kind": "stringLiteral", "value": ""}, True), {**prop("explicitlyRequiredPlain", U), "optional": False}]})
     struct(doc, optional_sites(doc, rnd, 1)[0])["properties"].append(prop("verifNullable", ref("VerifNullable"), True))
 
 
@@ -347,11 +347,19 @@ def e_single_alternative_or_alias(doc, rnd):
     struct(doc, optional_sites(doc, rnd, 1)[0])["properties"].append(prop("verifMaybeName", ref("VerifMaybeName"), True))
 
 
+def e_null_before_container(doc, rnd):
+    """`integer | null | string[]`: null in the middle, followed by an alternative that has no name.  A new union of a scalar and a container
+    needs a hand-written structure hook in the Python package (the documented limit of the family), so this shape is checked for the rust
+    and dotnet plugins only."""
+    doc["structures"].append({"name": "VerifNullPlacement", "properties": [prop("nullBeforeArray", {"kind": "or", "items": [I, {"kind": "base", "name": "null"}, arr(S)]}), prop("nullBeforeMap", {"kind": "or", "items": [{"kind": "base", "name": "null"}, {"kind": "map", "key": S, "value": U}]}, True)]})
+
+
 # edits that only some plugins can process: name -> (function, plugins to run, sub-checks to run).  The plugins listed are RUN (their
 # failure is reported under the stable key evolve:<plugin>:exit:<edit>, recorded in known_findings.jsonl where it is a known limitation)
 RESTRICTED = {
     "nullable-message-params": (e_nullable_request_params, ["python", "rust", "dotnet"], ["C17"]),
     "single-alternative-or-alias": (e_single_alternative_or_alias, ["python", "rust", "dotnet"], ["C07"]),
+    "null-before-container": (e_null_before_container, ["rust", "dotnet"], ["C07", "C08"]),
 }
 
 
